@@ -122,6 +122,9 @@ mkblock(char *name)
 	b->label.kind = VALUE_LABEL;
 	b->label.u.name = name;
 	b->label.id = ++id;
+#ifdef CPROC_VERIF
+	vtrace("{\"e\":\"id\",\"k\":\"blk\",\"id\":%u,\"ctr\":1,\"a\":\"%p\"}", b->label.id, (void *)b);
+#endif
 	b->insts = (struct array){0};
 	b->jump.kind = JUMP_NONE;
 	b->phi.res.kind = VALUE_NONE;
@@ -147,6 +150,9 @@ mkglobal(struct decl *d)
 		v->u.name = d->name;
 		v->id = d->linkage == LINKNONE ? ++id : 0;
 	}
+#ifdef CPROC_VERIF
+	vtrace("{\"e\":\"id\",\"k\":\"glob\",\"id\":%u,\"ctr\":%d,\"a\":\"%p\"}", v->id, !d->asmname && d->linkage == LINKNONE, (void *)v);
+#endif
 
 	return v;
 }
@@ -215,6 +221,9 @@ functemp(struct func *f, struct value *v)
 	v->kind = VALUE_TEMP;
 	v->u.name = NULL;
 	v->id = ++f->lastid;
+#ifdef CPROC_VERIF
+	vtrace("{\"e\":\"id\",\"k\":\"tmp\",\"id\":%u,\"ctr\":1,\"a\":\"%p\"}", v->id, (void *)v);
+#endif
 }
 
 static const char *const instname[] = {
@@ -512,6 +521,9 @@ mkfunc(struct decl *decl, char *name, struct type *t, struct scope *s)
 	f->type = t;
 	f->start = f->end = mkblock("start");
 	f->lastid = 0;
+#ifdef CPROC_VERIF
+	vtrace("{\"e\":\"id\",\"k\":\"func\",\"id\":0,\"ctr\":0,\"a\":\"%p\"}", (void *)f);
+#endif
 	mapinit(&f->gotos, 8);
 	emittype(t->base);
 
@@ -1137,6 +1149,9 @@ emittype(struct type *t)
 	t->value->kind = VALUE_TYPE;
 	t->value->u.name = t->u.structunion.tag;
 	t->value->id = ++id;
+#ifdef CPROC_VERIF
+	vtrace("{\"e\":\"id\",\"k\":\"type\",\"id\":%u,\"ctr\":1,\"a\":\"%p\"}", t->value->id, (void *)t);
+#endif
 	for (m = t->u.structunion.members; m; m = m->next) {
 		for (sub = m->type; sub->kind == TYPEARRAY; sub = sub->base)
 			;
